@@ -686,6 +686,22 @@ fn parse_ixdtf(source: &str, variant: ParseVariant) -> TemporalResult<IxdtfParse
     }
     .map_err(|e| TemporalError::range().with_message(format!("{e}")))?;
 
+    // A fraction has at most nine digits, on the time and on the offset, whether or not the goal
+    // keeps the time.
+    let time_fraction_too_long = record
+        .time
+        .and_then(|t| t.fraction)
+        .is_some_and(|f| f.to_nanoseconds().is_none());
+    let offset_fraction_too_long = match record.offset {
+        Some(UtcOffsetRecordOrZ::Offset(o)) => {
+            o.fraction.is_some_and(|f| f.to_nanoseconds().is_none())
+        }
+        _ => false,
+    };
+    if time_fraction_too_long || offset_fraction_too_long {
+        return Err(TemporalError::range().with_message("fractional seconds exceeds nine digits."));
+    }
+
     if critical_duplicate_calendar {
         // TODO: Add tests for the below.
         // Parser handles non-matching calendar, so the value thrown here should only be duplicates.
